@@ -26,6 +26,8 @@ type HWCase struct {
 	Format string   `json:"format"`
 	Terms  []string `json:"terminators"` // after statement 1 and 2
 	Last   string   `json:"last"`        // after statement 3
+	// Opt: the block markers carry the tool's own options (dbmate: "-- migrate:up transaction:false").
+	Opt bool `json:"opt,omitempty"`
 }
 
 var hwStmts = []string{
@@ -46,6 +48,9 @@ func hwFiles(c HWCase) map[string]string {
 	case "goose":
 		return map[string]string{"1_init.sql": "-- +goose Up\n" + body + "\n-- +goose Down\nDROP TABLE users;\n"}
 	case "dbmate":
+		if c.Opt {
+			return map[string]string{"1_init.sql": "-- migrate:up transaction:false\n" + body + "\n-- migrate:down transaction:false\nDROP TABLE users;\n"}
+		}
 		return map[string]string{"1_init.sql": "-- migrate:up\n" + body + "\n-- migrate:down\nDROP TABLE users;\n"}
 	case "flyway":
 		return map[string]string{"V1__init.sql": body}
@@ -149,7 +154,10 @@ func hwCases() []HWCase {
 		for _, t1 := range terms {
 			for _, t2 := range terms {
 				for _, l := range lasts {
-					cs = append(cs, HWCase{f, []string{t1, t2}, l})
+					cs = append(cs, HWCase{Format: f, Terms: []string{t1, t2}, Last: l})
+					if f == "dbmate" && t1 == t2 {
+						cs = append(cs, HWCase{Format: f, Terms: []string{t1, t2}, Last: l, Opt: true})
+					}
 				}
 			}
 		}
